@@ -112,12 +112,6 @@ Proof. exact typep_classof_dispatch_agree. Qed.
 Print Assumptions C12_typep_classof_dispatch_agree.
 
 (* (11) outside the guard the faithful model violates S: the known findings *)
-Theorem C12_classchanged_order_refuted :
-  guard_ops w0 h_chain = true /\ guard_ops w0 w_bad_order = false /\
-  prec_of (run w0 w_bad_order) 2 = [2; 1; 0; SO; TT] /\ spec_prec (run w0 w_bad_order) 2 = [2; 1; 0; 3; SO; TT] /\
-  guard_ops w0 w_good_order = true /\ prec_of (run w0 w_good_order) 2 = [2; 1; 0; 3; SO; TT].
-Proof. exact classchanged_order_refuted. Qed.
-Print Assumptions C12_classchanged_order_refuted.
 Theorem C12_redefinition_forward_reference_refuted :
   guard_ops w0 w_fwd_prefix = true /\ guard_ops w0 w_fwd = false /\
   prec_of (run w0 w_fwd) 0 = [0; 3; SO; TT] /\
@@ -143,6 +137,24 @@ Theorem C12_two_initargs_one_slot_refuted :
   slot_S (cs_of (run w0 w_two_prefix)) [0] [(0, 1%Z); (1, 2%Z)] 0 = SVal 1.
 Proof. exact two_initargs_one_slot_refuted. Qed.
 Print Assumptions C12_two_initargs_one_slot_refuted.
+
+(* (11a) repaired (repo_fixes/C12-2): the order in which Go's map delivers the classes that inherit a redefined
+   class no longer matters.  Chain a <- b <- c, a redefined under z: with c delivered before b and with b before c
+   the history is inside the guard and c gets (c b a z standard-object t), the specification's list.  The second
+   theorem keeps the record of the unchanged code (merging in the delivered order leaves c stale when c comes first). *)
+Theorem C12_classchanged_any_order_example :
+  guard_ops w0 w_order_cb = true /\ guard_ops w0 w_order_bc = true /\
+  prec_of (run w0 w_order_cb) 2 = [2; 1; 0; 3; SO; TT] /\ prec_of (run w0 w_order_bc) 2 = [2; 1; 0; 3; SO; TT] /\
+  spec_prec (run w0 w_order_cb) 2 = [2; 1; 0; 3; SO; TT].
+Proof. exact classchanged_any_order_example. Qed.
+Print Assumptions C12_classchanged_any_order_example.
+Theorem C12_original_classchanged_order_refuted :
+  let pre := defclass_pre (run w0 h_chain) 0 [3] [] [4; 1; 2; 3] in
+  prec_of (class_changed_orig pre 0 [2; 1]) 2 = [2; 1; 0; SO; TT] /\
+  prec_of (class_changed_orig pre 0 [1; 2]) 2 = [2; 1; 0; 3; SO; TT] /\
+  prec_of (class_changed pre 0 [2; 1]) 2 = [2; 1; 0; 3; SO; TT].
+Proof. exact original_classchanged_order_refuted. Qed.
+Print Assumptions C12_original_classchanged_order_refuted.
 
 (* (12) the hypotheses are satisfiable: a guarded history with forward references, a diamond, shadowed
    slots, initforms at two levels, a nil initform, a redefinition below which a class inherits, accessors and
